@@ -71,7 +71,7 @@ def KeysOK (m : PMesh) : Prop := List.Pairwise (fun a b : Attr => gltfAttrName a
 
 /-- every written attribute has an entry under its glTF name -/
 def Complete (m : PMesh) (attrs : List (String × Nat)) : Prop :=
-  KeysOK m → ∀ a ∈ m.written, ∃ i, (gltfAttrName a.name, i) ∈ attrs
+  KeysOK m → (∀ a ∈ m.written, ∃ i, (gltfAttrName a.name, i) ∈ attrs) ∧ attrs.length = m.written.length
 
 def MeshData (w : W) (m : PMesh) (attrs : List (String × Nat)) (idx : Nat) : Prop :=
   AttrsData w m attrs ∧ ((m.written ≠ [] → attrs ≠ []) ∧ Complete m attrs)
@@ -134,6 +134,26 @@ theorem writeAttrs_complete (w : W) (acc : List (String × Nat)) (l : List Attr)
         · intro y hy; exact fun h => hl.1 y hy h.symm
       · exact h2 x hx
 
+theorem writeAttrs_length (w : W) (acc : List (String × Nat)) (l : List Attr)
+    (hl : List.Pairwise (fun a b : Attr => gltfAttrName a.name ≠ gltfAttrName b.name) l)
+    (hacc : ∀ ka ∈ acc, ∀ a ∈ l, gltfAttrName a.name ≠ ka.1) : (writeAttrs w acc l).2.length = acc.length + l.length := by
+  induction l generalizing w acc with
+  | nil => simp [writeAttrs]
+  | cons a r ih =>
+    simp only [writeAttrs]
+    rw [List.pairwise_cons] at hl
+    have hfresh : mapInsert acc (gltfAttrName a.name) w.accessors.length = acc ++ [(gltfAttrName a.name, w.accessors.length)] := by
+      unfold mapInsert
+      rw [List.filter_eq_self.mpr (fun e he => by simpa using fun h => hacc e he a (by simp) h.symm)]
+    rw [ih _ _ hl.2 ?_, hfresh]
+    · simp only [List.length_append, List.length_cons, List.length_nil]; omega
+    · intro ka hka x hx
+      rw [hfresh] at hka
+      simp only [List.mem_append, List.mem_singleton] at hka
+      rcases hka with hka | rfl
+      · exact hacc ka hka x (by simp [hx])
+      · exact fun h => hl.1 x hx h.symm
+
 theorem writeMeshData_data (w : W) (id : Nat) (m : PMesh) (hw : Inv w) (hm : MeshWF m) :
     MeshData (writeMeshData w id m).1 m (writeMeshData w id m).2.1 (writeMeshData w id m).2.2
     ∧ Ext w (writeMeshData w id m).1 := by
@@ -142,7 +162,10 @@ theorem writeMeshData_data (w : W) (id : Nat) (m : PMesh) (hw : Inv w) (hm : Mes
   have hidx := accIs_writeIndices _ hw1 m.indices m.attrLen hm.2
   have e2 : Ext (writeAttrs w [] m.written).1 (writeMeshData w id m).1 := ⟨_, _, _, rfl, rfl, rfl⟩
   have e3 : Ext (writeIndices (writeAttrs w [] m.written).1 m.indices m.attrLen) (writeMeshData w id m).1 := ⟨[], [], [], by simp [writeMeshData], by simp [writeMeshData], by simp [writeMeshData]⟩
-  refine ⟨⟨attrsData_mono h1 e2, ⟨fun hne => h3 (Or.inl hne), fun hk => (writeAttrs_complete w [] m.written hk).2⟩, accIs_mono hidx e3⟩, h2.trans' e2⟩
+  refine ⟨⟨attrsData_mono h1 e2, ⟨fun hne => h3 (Or.inl hne), fun hk => ⟨(writeAttrs_complete w [] m.written hk).2, by
+      have := writeAttrs_length w [] m.written hk (by intro ka hka; cases hka)
+      show (writeAttrs w [] m.written).2.length = m.written.length
+      simpa using this⟩⟩, accIs_mono hidx e3⟩, h2.trans' e2⟩
 
 /-! ### the data invariant of `AddScene` -/
 
